@@ -438,6 +438,10 @@ class TileCreator(object):
                     source.as_buffer(self.tile_mgr.image_opts)
                 source.image_opts = self.tile_mgr.image_opts
                 tile.source = source
+                # the tile is created anew, do not keep timestamp
+                # and size of an expired tile
+                tile.timestamp = None
+                tile.size = None
                 tile.cacheable = source.cacheable
                 tile = self.tile_mgr.apply_tile_filter(tile)
                 if source.cacheable:
